@@ -458,6 +458,11 @@ impl SourceBlockEncoder {
 
     // See section 5.3.4
     pub fn repair_packets(&self, start_repair_symbol_id: u32, packets: u32) -> Vec<EncodingPacket> {
+        // Encoding symbol ids are 24 bits wide; beyond that the u32 sums below could wrap around
+        assert!(
+            self.source_symbols.len() as u64 + start_repair_symbol_id as u64 + packets as u64
+                <= 16777216
+        );
         let start_encoding_symbol_id = start_repair_symbol_id
             + extended_source_block_symbols(self.source_symbols.len() as u32);
         let mut result = vec![];
